@@ -107,6 +107,19 @@ pub fn impl_answer(case: &Case) -> String {
             let spec = CtxSpec::from_sx(&payload[0]).expect("bad ctx");
             eval_on_impl(&spec, case.src.as_deref(), payload.get(1))
         }
+        "ctxops" => {
+            let r = quietly(|| {
+                catch_unwind(AssertUnwindSafe(|| {
+                    let mut out = String::from("(obs");
+                    let mut root = cel_interpreter::Context::empty();
+                    let mut i = 0usize;
+                    run_ctx_ops(&mut root, &payload, &mut i, &mut out);
+                    out.push(')');
+                    out
+                }))
+            });
+            r.unwrap_or_else(|_| "(panic)".to_string())
+        }
         "macro" => {
             let src = case.src.clone().unwrap_or_default();
             match quietly(|| catch_unwind(|| cel_parser::Parser::new().parse(&src))) {
@@ -162,4 +175,37 @@ pub fn eval_case_from_src(spec: &CtxSpec, src: &str) -> Option<Case> {
     let mut c = Case::new("eval", format!("{} {}", spec.to_sx().to_text(), expr_to_sx(&ast).to_text()));
     c.src = Some(src.to_string());
     Some(c)
+}
+
+fn run_ctx_ops(ctx: &mut cel_interpreter::Context, ops: &[Sx], i: &mut usize, out: &mut String) {
+    let name = |x: &Sx| String::from_utf8_lossy(&crate::sx::unhex(x.as_atom().unwrap_or("x"))).into_owned();
+    while *i < ops.len() {
+        let op = ops[*i].as_list().unwrap_or(&[]).to_vec();
+        *i += 1;
+        match op.first().and_then(|a| a.as_atom()) {
+            Some("def") => ctx.add_variable_from_value(name(&op[1]), sx_to_value(&op[2]).expect("bad value")),
+            Some("push") => {
+                let mut child = ctx.new_inner_scope();
+                run_ctx_ops(&mut child, ops, i, out);
+            }
+            Some("pop") => return,
+            Some("fn") => ctx.add_function(&name(&op[1]), || -> i64 { 1 }),
+            Some("get") => match ctx.get_variable(name(&op[1])) {
+                Ok(v) => {
+                    out.push(' ');
+                    out.push_str(&value_to_sx(&v).to_text());
+                }
+                Err(_) => out.push_str(" none"),
+            },
+            Some("probe") => {
+                let n = name(&op[1]);
+                let present = match Program::compile(&format!("{n}()")) {
+                    Ok(p) => !matches!(p.execute(ctx), Err(cel_interpreter::ExecutionError::UndeclaredReference(_))),
+                    Err(_) => false,
+                };
+                out.push_str(if present { " (fn 1)" } else { " (fn 0)" });
+            }
+            _ => {}
+        }
+    }
 }
